@@ -183,7 +183,13 @@ func (j *jmessage) toJSON() ([]byte, error) {
 	case j.E != nil:
 		e, err := json.Marshal(j.E)
 		if err != nil {
-			return nil, err
+			// The data of the error object cannot be encoded (they are not
+			// valid JSON). Report the error without them, so that the message
+			// is not lost (and with it the rest of a batch).
+			e, err = json.Marshal(&Error{Code: j.E.Code, Message: j.E.Message})
+			if err != nil {
+				return nil, err
+			}
 		}
 		sb.WriteString(`,"error":`)
 		sb.Write(e)
